@@ -425,6 +425,35 @@ theorem header_z_exact (s : Shape) (ss : List Shape) (ht : s.writeType.hasZ = tr
   rw [hb, hfz.1, hfz.2, ez1, ez2]
   exact ⟨header_fold_min _ (by simp) hz, header_fold_max _ (by simp) hZ⟩
 
+/-- M range of M-carrying files (M and Z types): exact over the shapes' M ranges, whenever those
+ranges are the extremes of a non-empty set of real (non-NaN) measures -/
+theorem header_m_exact (s : Shape) (ss : List Shape) (ht : s.writeType.hasM = true)
+    (hm : NoNaN ((s :: ss).map (·.ranges.1.m))) (hM : NoNaN ((s :: ss).map (·.ranges.2.m)))
+    (hsame : ∃ vals, vals ≠ [] ∧ NoNaN vals ∧
+      IsMin (((s :: ss).map (·.ranges.1.m)).foldl (fun acc v => F64.fmin v acc) F64.posInf) vals ∧
+      IsMax (((s :: ss).map (·.ranges.2.m)).foldl (fun acc v => F64.fmax v acc) F64.negInf) vals) :
+    let h := finalHeader (s :: ss)
+    IsMin h.bbox.min.m ((s :: ss).map (·.ranges.1.m)) ∧ IsMax h.bbox.max.m ((s :: ss).map (·.ranges.2.m)) := by
+  intro h
+  have hb : h.bbox = finalizeBox ((s :: ss).foldl (growFromShape s.writeType) sentinelBox) := rfl
+  obtain ⟨em1, em2⟩ := foldl_grow_m s.writeType ht (s :: ss) sentinelBox
+  have s1 : sentinelBox.min.m = F64.posInf := sentinelMin_eq
+  have s2 : sentinelBox.max.m = F64.negInf := sentinelMax_eq
+  rw [s1] at em1; rw [s2] at em2
+  obtain ⟨vals, hne, hnn, hmn, hmx⟩ := hsame
+  have hns := not_both_sentinels _ _ vals hne hnn hmn hmx
+  rw [← em1, ← em2] at hns
+  have hfm : (finalizeBox ((s :: ss).foldl (growFromShape s.writeType) sentinelBox)).min.m =
+        ((s :: ss).foldl (growFromShape s.writeType) sentinelBox).min.m ∧
+      (finalizeBox ((s :: ss).foldl (growFromShape s.writeType) sentinelBox)).max.m =
+        ((s :: ss).foldl (growFromShape s.writeType) sentinelBox).max.m := by
+    generalize (s :: ss).foldl (growFromShape s.writeType) sentinelBox = b at hns
+    unfold finalizeBox
+    simp only [hns, Bool.false_eq_true, if_false]
+    split <;> simp
+  rw [hb, hfm.1, hfm.2, em1, em2]
+  exact ⟨header_fold_min _ (by simp) hm, header_fold_max _ (by simp) hM⟩
+
 /-- combining per-shape exactness with the header fold: the minimum of exact per-shape minima is
 the exact minimum of all the values -/
 theorem isMin_of_parts (mins : List F64) (groups : List (List F64)) (v : F64)
